@@ -70,6 +70,7 @@ if ok:
     shutil.copy(os.path.join(src, "patch.diff"), dst)
     shutil.copy(os.path.join(src, "demo.py"), dst)
     meta = json.load(open(os.path.join(src, "meta.json"))) if os.path.exists(os.path.join(src, "meta.json")) else {}
+    meta["base_commit"] = subprocess.run("git -C /repo rev-parse --short HEAD", shell=True, capture_output=True, text=True).stdout.strip()
     meta.update(confirmed_by_lead=dict(patch_applies=True, demo_passes_without=True, demo_fails_with=True,
                                        pinned_suite_passes_with_change=True,
                                        ran=["git worktree add (scratch)", "git apply patch.diff", "python demo.py (with/without)",
